@@ -22,7 +22,17 @@ KEYS = {
     9: {"a": {"$": "int", "v": 1}, "b": "x", "c": False, "d": {"$": "time", "v": 3}},
     10: {"a": None},                 # byte-prefix of key 8's encoding
     11: {"a": {"$": "int", "v": 1}, "b": "y", "c": True, "e": {"$": "u8", "v": 7}},
+    # more values per dimension (cluster checks: spread over partitions)
+    12: {"a": {"$": "int", "v": 2}, "b": "x"},
+    13: {"a": {"$": "int", "v": 3}, "b": "y"},
+    14: {"a": {"$": "int", "v": 4}, "b": "z"},
+    15: {"a": {"$": "int", "v": 5}, "b": "y"},
+    16: {"a": {"$": "int", "v": 6}, "b": "q"},
+    17: {"a": {"$": "int", "v": 7}, "b": "y"},
+    18: {"a": {"$": "int", "v": 2}, "b": "y"},
+    19: {"a": {"$": "int", "v": 3}, "b": "zz"},
 }
+CLUSTER_KEYS = [1, 2, 3, 4, 12, 13, 14, 15, 16, 17, 18, 19]
 BASIC_KEYS = [1, 2, 3, 4]
 # WHERE ids: sql text (None = no WHERE) and the predicate evaluated here,
 # independently of zenodb
@@ -138,12 +148,13 @@ def key_string(d):
 
 class Table:
     def __init__(self, name, fields=("f",), where="all", group=("a",), res=2, ret=1000,
-                 view_of=None, max_flush_ms=0, raw=None, view_where=None):
+                 view_of=None, max_flush_ms=0, raw=None, view_where=None, partition_by=()):
         self.name, self.fields, self.where = name, list(fields), where
         self.group, self.res, self.ret, self.view_of = list(group), res, ret, view_of
         self.max_flush_ms = max_flush_ms
         self.raw = dict(raw or {})          # extra (non-decodable) fields: name -> SQL
         self.view_where = view_where        # for a view: the WHERE written in its own SQL
+        self.partition_by = list(partition_by)
 
     def flds(self):
         return ["p"] + self.fields
@@ -166,7 +177,8 @@ class Table:
         """A copy of this table with another field list and/or WHERE."""
         t = Table(self.name, fields=self.fields if fields is None else fields,
                   where=self.where if where is None else where, group=self.group, res=self.res, ret=self.ret,
-                  view_of=self.view_of, max_flush_ms=self.max_flush_ms, raw=self.raw, view_where=self.view_where)
+                  view_of=self.view_of, max_flush_ms=self.max_flush_ms, raw=self.raw, view_where=self.view_where,
+                  partition_by=self.partition_by)
         return t
 
     def proj(self, k):
@@ -183,6 +195,7 @@ class Table:
                 # gated runs
                 "minFlushMs": 0 if self.max_flush_ms else 86400000,
                 "raw": sorted(list(self.raw) + [f for f in self.fields if f in RAWDEFS]),
+                "partitionBy": self.partition_by,
                 "abs": {"w": self.where, "fs": self.flds()}}
 
 
